@@ -32,6 +32,8 @@ CHECKS = {
  "C17": dict(category="proof", text="Proof by abstract interpretation of slot.rs: a path-enumerating interpreter over affine forms with intervals and residues mod 4 discharges, on the MIR of every slot constructor, the obligations O1 (constructor privacy), O2 (residue class of every Slot(..) construction), O3 (counter = 1 mod 4, inductive), O4 (every store raises the counter; fresh() returns the pre-increment value), O5 (after parsing f<n> the counter is above that slot on both branches), O6 (interning: index = length before the single push, push and insert together, on a miss only, single writer), O7 (Display inverts the three encodings with the same constants and literals), O8 (numbers from text only in canonical decimal and below 2^30), O9 (every overflow assertion in slot.rs discharged). Assumes fewer than 2^30 fresh slots per thread.",
              technique="abstract interpretation over MIR (affine forms + intervals + residues, path enumeration), constructor-privacy census", ref="§4 C17",
              note="Trusted base: rustc MIR construction, sefacts, salib.absint, the std contracts of str::parse::<u32>, u32::to_string, HashMap::get/insert, Vec::push/len. The model of the canonical-number helper is re-verified from its own MIR on every run. Assumption: the u32 counter does not wrap (fewer than 2^30 - 2 fresh slots per thread)."),
+ "C15": dict(text="Static necessary conditions of truthful saturation / stop reasons: apply_rewrites returns before != after with the first progress measurement dominating every searcher/applier invocation and the second post-dominating all of them; the measure's equality is derived over its four fields, each computed from its source; every StopReason variant is constructed only under its own condition (frozen reason table, counter on the greater side); hooks and limits are chained on every iteration, the loop ends only with a reason and pushes one record per round; the report's node count is total_number_of_nodes() read after the loop with no mutation in between. 'No measure change implies nothing observable changed' is argued, not decided.",
+             technique="custom MIR analysis: dominance / post-dominance of measurement sites, condition table for constructor sites incl. closures, value-flow of report fields", ref="§4 C15"),
  "C02": dict(text="Static necessary conditions of congruence-closure completeness: inter-procedural work-list summaries prove that no public &mut entry point returns with a non-empty work-list in any feature configuration; the drain loop exits only on empty; every class-level change re-queues usages with Full; PendingType::merge truth table; remove/re-insert pairing and self-symmetry derivation in the work-list handler; orbit closure feeds the stored slot set (known finding F1). Does not decide that the fixpoint equals the congruence closure.",
              technique="custom MIR analysis: inter-procedural must-pass-through summaries (greatest fixpoint), path rules, exhaustive constant evaluation of a 2x2 match, value dependence", ref="§4 C02"),
  "C01": dict(text="Static necessary conditions of equality soundness, decided on the MIR of every feature configuration: eq() answers true only via the class-group membership test behind the id and slot-set guards on canonicalised operands; the slot-set writer's cap is an intersection; add-permutation / merge branch discipline; union-find edge orientation. Does not decide soundness of computed slot maps as values.",
